@@ -71,23 +71,26 @@ def matchesAny (globs : List Str) (path : Str) : Option Bool :=
     | some a, some b => some (a || b)
     | _, _ => none) (some false)
 
+/-- one rank's `replicated_paths` before the all-ranks filter: its glob-matched, non-sharded paths, in order
+(`none` = some glob is outside the model) -/
+def candM (globs : List Str) (r : List (Str × Bool)) : Option (List Str) :=
+  r.foldr (fun pv acc => match matchesAny globs pv.1, acc with
+    | some m, some l => some (if m && !pv.2 then pv.1 :: l else l)
+    | _, _ => none) (some [])
+
+def allCands (globs : List Str) (perRank : List (List (Str × Bool))) : Option (List (List Str)) :=
+  perRank.foldr (fun r acc => match candM globs r, acc with
+    | some c, some l => some (c :: l)
+    | _, _ => none) (some [])
+
 /-- `_calculate_replicated_entries`: a path of this rank is replicated iff it matches a glob, its value is not sharded
 and every rank reported it (path_count == world_size). `perRank` = each rank's list of (path, sharded?). -/
 def replicatedPaths (globs : List Str) (perRank : List (List (Str × Bool))) : Option (List Str) :=
   match perRank with
   | [] => some []
   | r0 :: _ =>
-    let cand (r : List (Str × Bool)) : Option (List Str) :=
-      r.foldr (fun pv acc => match matchesAny globs pv.1, acc with
-        | some m, some l => some (if m && !pv.2 then pv.1 :: l else l)
-        | _, _ => none) (some [])
-    match perRank.foldr (fun r acc => match cand r, acc with
-        | some c, some l => some (c :: l)
-        | _, _ => none) (some []) with
-    | none => none
-    | some cands =>
-      match cand r0 with
-      | none => none
-      | some c0 => some (c0.filter (fun p => (cands.map (fun c => c.count p)).sum == perRank.length))
+    match allCands globs perRank, candM globs r0 with
+    | some cands, some c0 => some (c0.filter (fun p => (cands.map (fun c => c.count p)).sum == perRank.length))
+    | _, _ => none
 
 end Ts.Glob
